@@ -2,6 +2,11 @@
 
 package xmss
 
+import (
+	"reflect"
+	"unsafe"
+)
+
 // Verification hooks (build tag "verif"). Nothing in this file is compiled
 // into the shipped library. They give a simulator outside the package:
 //   - a seam replacing leaf generation (genLeafWOTS) by a cheap function,
@@ -85,25 +90,124 @@ func (x *XMSS) VerifSnapshot() *VerifState {
 	return s
 }
 
-// VerifClone returns an independent deep copy of the object.
-func (x *XMSS) VerifClone() *XMSS {
-	wp := *x.xmssParams.wotsParams
-	xp := *x.xmssParams
-	xp.wotsParams = &wp
-	d := *x.desc
-	b := &BDSState{
-		stack:       verifDup(x.bdsState.stack),
-		stackOffset: x.bdsState.stackOffset,
-		stackLevels: verifDup(x.bdsState.stackLevels),
-		auth:        verifDup(x.bdsState.auth),
-		keep:        verifDup(x.bdsState.keep),
-		retain:      verifDup(x.bdsState.retain),
-		nextLeaf:    x.bdsState.nextLeaf,
+// VerifClone returns an independent deep copy of the object. It copies by
+// reflection, so fields added to XMSS, BDSState or TreeHashInst later are
+// carried along instead of breaking (or silently escaping) the hook.
+func (x *XMSS) VerifClone() *XMSS { return x.VerifCloneKeeping(nil) }
+
+// VerifCloneKeeping is VerifClone except that pointers and slices whose target
+// address is in keep are not copied but shared with the original: memory that
+// several key objects already share (a package-level singleton, a pool) must
+// stay shared in their copies too.
+func (x *XMSS) VerifCloneKeeping(keep map[uintptr]bool) *XMSS {
+	n := reflect.New(reflect.TypeOf(*x))
+	verifCopyInto(n.Elem(), reflect.ValueOf(x).Elem(), keep)
+	return n.Interface().(*XMSS)
+}
+
+// VerifReachable lists the addresses of everything the object points to
+// (pointer targets and slice backing arrays), for finding memory shared
+// between objects.
+func (x *XMSS) VerifReachable() []uintptr {
+	var out []uintptr
+	seen := map[uintptr]bool{}
+	var walk func(v reflect.Value)
+	walk = func(v reflect.Value) {
+		switch v.Kind() {
+		case reflect.Ptr:
+			if v.IsNil() || seen[v.Pointer()] {
+				return
+			}
+			seen[v.Pointer()] = true
+			out = append(out, v.Pointer())
+			walk(v.Elem())
+		case reflect.Slice:
+			if v.IsNil() {
+				return
+			}
+			if v.Cap() > 0 && !seen[v.Pointer()] {
+				seen[v.Pointer()] = true
+				out = append(out, v.Pointer())
+			}
+			if k := v.Type().Elem().Kind(); k == reflect.Ptr || k == reflect.Struct || k == reflect.Slice || k == reflect.Map {
+				for i := 0; i < v.Len(); i++ {
+					walk(v.Index(i))
+				}
+			}
+		case reflect.Struct:
+			for i := 0; i < v.NumField(); i++ {
+				walk(v.Field(i))
+			}
+		case reflect.Map:
+			if !v.IsNil() {
+				out = append(out, v.Pointer())
+			}
+		}
 	}
-	for _, t := range x.bdsState.treeHash {
-		b.treeHash = append(b.treeHash, &TreeHashInst{t.h, t.nextIdx, t.stackUsage, t.completed, verifDup(t.node)})
+	walk(reflect.ValueOf(x))
+	return out
+}
+
+// verifCopyInto deep-copies src into the addressable dst, unexported fields included.
+func verifCopyInto(dst, src reflect.Value, keep map[uintptr]bool) {
+	raw := func(v reflect.Value) reflect.Value {
+		if v.CanAddr() {
+			return reflect.NewAt(v.Type(), unsafe.Pointer(v.UnsafeAddr())).Elem()
+		}
+		return v
 	}
-	return &XMSS{&xp, x.hashFunction, x.height, verifDup(x.sk), x.seed, b, &d}
+	switch src.Kind() {
+	case reflect.Struct:
+		for i := 0; i < src.NumField(); i++ {
+			verifCopyInto(raw(dst.Field(i)), raw(src.Field(i)), keep)
+		}
+	case reflect.Ptr:
+		if src.IsNil() {
+			return
+		}
+		if keep[src.Pointer()] {
+			dst.Set(src)
+			return
+		}
+		n := reflect.New(src.Type().Elem())
+		verifCopyInto(n.Elem(), src.Elem(), keep)
+		dst.Set(n)
+	case reflect.Slice:
+		if src.IsNil() {
+			return
+		}
+		if src.Cap() > 0 && keep[src.Pointer()] {
+			dst.Set(src)
+			return
+		}
+		n := reflect.MakeSlice(src.Type(), src.Len(), src.Cap())
+		for i := 0; i < src.Len(); i++ {
+			verifCopyInto(n.Index(i), src.Index(i), keep)
+		}
+		dst.Set(n)
+	case reflect.Array:
+		for i := 0; i < src.Len(); i++ {
+			verifCopyInto(dst.Index(i), src.Index(i), keep)
+		}
+	case reflect.Map:
+		if src.IsNil() {
+			return
+		}
+		if keep[src.Pointer()] {
+			dst.Set(src)
+			return
+		}
+		n := reflect.MakeMapWithSize(src.Type(), src.Len())
+		it := src.MapRange()
+		for it.Next() {
+			e := reflect.New(src.Type().Elem()).Elem()
+			verifCopyInto(e, it.Value(), keep)
+			n.SetMapIndex(it.Key(), e)
+		}
+		dst.Set(n)
+	default: // scalars, strings; channels, funcs and interfaces are shared
+		dst.Set(src)
+	}
 }
 
 // VerifRootFromAuth evaluates an authentication path with the library's own
